@@ -147,6 +147,8 @@ fn format_file(
     opt: &opt::Opt,
     verify_output: OutputVerification,
 ) -> Result<FormatResult> {
+    #[cfg(stylua_verif)]
+    verif_hooks::fault("format_file", path);
     let contents =
         fs::read_to_string(path).with_context(|| format!("failed to read {}", path.display()))?;
 
@@ -529,7 +531,6 @@ fn format(opt: opt::Opt) -> Result<i32> {
                             {
                                 let name = path.file_name().map(|x| x.to_string_lossy().to_string()).unwrap_or_default();
                                 verif_hooks::role(&format!("worker[{}]", name));
-                                verif_hooks::fault("format_file", &path);
                                 verif_hooks::yield_point("start", &format!("\"path\":{}", verif_hooks::quote(&path.display().to_string())));
                             }
                             tx.send(
